@@ -6,7 +6,7 @@
    queue, the dispensation mint controller (reset on import). *)
 From Coq Require Import ZArith List Bool.
 From RecordUpdate Require Import RecordUpdate.
-From Sif Require Import Base.Outcome Base.Store Base.Bank Model.ClpTypes Model.ClpPolicy Model.Dispensation.
+From Sif Require Import Base.Outcome Base.Store Base.Bank Model.ClpTypes Model.ClpPolicy Model.Dispensation Model.Margin.
 Import ListNotations.
 Local Open Scope Z_scope.
 
@@ -61,3 +61,27 @@ Definition of_records (st : Z) (l : list (Z * (rkey * drec))) : table drec :=
   fold_left (fun t e => if fst e =? st then rset (fst (snd e)) (snd (snd e)) t else t) l [].
 Definition import_disp (g : disp_gen) : disp_carried :=
   mkDC (of_records 1 (dg_records g)) (of_records 2 (dg_records g)) (of_records 3 (dg_records g)) (dg_dists g) (dg_claims g).
+
+(* ---------- x/margin (x/margin/keeper/genesis.go) ---------- *)
+(* The document carries the parameters and the open positions (address, id, position). Not carried: the lifetime and the
+   open position counter (restored on import from the listed positions, fix F-18), the whitelist (finding F-20). *)
+Record margin_carried := mkMC {
+  mc_params : mparams; mc_mtps : store (store mtp); mc_count : Z; mc_open : Z; mc_whitelist : list Z
+}.
+Record margin_gen := mkMG { mg_params : mparams; mg_mtps : list (Z * (Z * mtp)) }.
+Definition export_margin (c : margin_carried) : margin_gen := mkMG (mc_params c) (flatten (mc_mtps c)).
+(* SetMTP on the fresh store: a listed position with id 0 is given the next id and counted as open *)
+Definition import_mtp (acc : store (store mtp) * Z * Z) (e : Z * (Z * mtp)) : store (store mtp) * Z * Z :=
+  let '(m, cnt, op) := acc in
+  if fst (snd e) =? 0 then (nset (fst e) (cnt + 1) (snd (snd e)) m, cnt + 1, op + 1)
+  else (nset (fst e) (fst (snd e)) (snd (snd e)) m, cnt, op).
+Definition max_id (l : list (Z * (Z * mtp))) : Z := fold_left Z.max (map (fun e => fst (snd e)) l) 0.
+Definition import_margin (g : margin_gen) : margin_carried :=
+  let '(m, cnt, op) := fold_left import_mtp (mg_mtps g) ([], 0, 0) in
+  match mg_mtps g with
+  | [] => mkMC (mg_params g) m cnt op []
+  | _ => mkMC (mg_params g) m (Z.max cnt (max_id (mg_mtps g))) (Z.of_nat (length (mg_mtps g))) []
+  end.
+(* the carried part of a margin state of Model/Margin.v *)
+Definition margin_carried_of (s : mstate) : margin_carried :=
+  mkMC (ms_params s) (ms_mtps s) (ms_count s) (ms_open s) (ms_whitelist s).
